@@ -426,10 +426,9 @@ Proof.
     cbn [unit_of].
     replace (Nat.ltb s (cs0 * 2)) with false by (symmetry; apply Nat.ltb_ge; lia).
     fold ws. replace (dlen * 2) with (2 * dlen) by lia. fold raw.
-    rewrite wide_chars_no_pad.
-    2:{ intros b Hb0 E. subst b. destruct (unwiden_elems _ _ Eu _ Hb0) as [Hi|Hz]; [|discriminate].
-        apply Hno61. apply Hchars. exact Hi. }
-    rewrite Eu, Hstrict.
+    unfold wide_chars. rewrite Eu.
+    rewrite strip_padding_id by (intros c Hc E; subst c; apply Hno61; apply Hchars; exact Hc).
+    rewrite Hstrict.
     replace (Nat.leb (p + n) (length bs)) with true by (symmetry; apply Nat.leb_le; lia).
     replace (Nat.leb (s + cl * 2) (length d)) with true by (symmetry; apply Nat.leb_le; lia).
     replace (bytes_eqb (slice bs p n) lit) with true
